@@ -455,13 +455,41 @@ def one_set(ctx, idx, cflags, cxxflags):
         configs.append(("py", [], omit))
     if ctx.quick and idx != "shapes":
         configs = [c for c in configs if not c[2]] + R.sample([c for c in configs if c[2]], 2)
+    configs = [c + ("", [], []) for c in configs]
+    # language option variants (C and C++): the armed serialization asserts are compiled as real assert()s
+    variants = [("asserts", ["--enable-serialization-asserts"], ["-DNUNAVUT_ASSERT=assert", "-include", "assert.h"]),
+                ("little", ["--target-endianness", "little"], []), ("big", ["--target-endianness", "big"], []),
+                ("nofloat", ["--omit-float-serialization-support"], []), ("ovr", ["--enable-override-variable-array-capacity"], [])]
+    # omit_float_serialization_support is documented to break types that use floating point: it applies to float-free sets only
+    def uses_float(t):
+        parts = [t.request_type, t.response_type] if isinstance(t, pydsdl.ServiceType) else [t]
+        for pt in parts:
+            it = pt.inner_type if isinstance(pt, pydsdl.DelimitedType) else pt
+            for a in it.attributes:
+                dt = a.data_type
+                while isinstance(dt, pydsdl.ArrayType):
+                    dt = dt.element_type
+                if isinstance(dt, pydsdl.FloatType):
+                    return True
+        return False
+    if any(uses_float(t) for t in alltypes):
+        variants = [v for v in variants if v[0] != "nofloat"]
+    if ctx.quick and idx not in ("shapes", "prefix"):
+        variants = [variants[idx % len(variants)], variants[(idx + 2) % len(variants)]]
+    for vi, (vname, vflags, ccflags) in enumerate(variants):
+        configs.append(("c", [], False, vname, vflags, ccflags))
+        stds = ["c++14", "c++17-pmr"] if (not ctx.quick or idx == "shapes") else [["c++14", "c++17-pmr"][vi % 2]]
+        for std in stds:
+            configs.append(("cpp", ["--language-standard", std], False, vname, vflags, ccflags))
     jobs, meta = [], {}
-    for lang, flags, omit in configs:
-        tag = "%s_%s_%s" % (lang, "".join(flags[1:]).replace("+", "p") or "default", "omit" if omit else "ser")
+    for lang, flags, omit, vname, vflags, ccflags in configs:
+        tag = "%s_%s_%s%s" % (lang, "".join(flags[1:]).replace("+", "p") or "default", "omit" if omit else "ser", "_" + vname if vname else "")
         out = os.path.join(d, "out_" + tag)
-        rs = genrun.nnvg_all_roots(dsdl_dir, roots, out, lang, extra=flags + (["--omit-serialization-support"] if omit else []), cwd=d)
+        rs = genrun.nnvg_all_roots(dsdl_dir, roots, out, lang, extra=flags + vflags + (["--omit-serialization-support"] if omit else []), cwd=d)
         ctx.count("evaluations")
         ctx.count("generations")
+        if vname:
+            ctx.count("generations_with_option[%s]" % vname)
         if any(r.returncode != 0 for r in rs):
             ctx.refute(None, "generation failed for a namespace set the front end accepts (%s)" % tag, dict(witness, config=tag, stderr=[r.stderr[-1000:] for r in rs if r.returncode][:1]))
             continue
@@ -478,17 +506,17 @@ def one_set(ctx, idx, cflags, cxxflags):
         if lang == "c":
             for rel in files:
                 if rel.endswith(".h"):
-                    jobs.append((tag, (out, rel, "clang", "c11", cflags, False)))
-                    jobs.append((tag, (out, rel, "gcc", "c11", cflags + ["-Wno-stringop-overflow"], False)))
+                    jobs.append((tag, (out, rel, "clang", "c11", cflags + ccflags, False)))
+                    jobs.append((tag, (out, rel, "gcc", "c11", cflags + ccflags + ["-Wno-stringop-overflow"], False)))
                     if not ctx.quick or R.random() < 0.5:
-                        jobs.append((tag, (out, rel, "clang++", "c++14", cflags, True)))    # the flag set common to C and C++
+                        jobs.append((tag, (out, rel, "clang++", "c++14", cflags + ccflags, True)))    # the flag set common to C and C++
         elif lang == "cpp":
             std = {"c++17-pmr": "c++17"}.get(flags[1], flags[1])
             for rel in files:
                 if rel.endswith(".hpp"):
-                    jobs.append((tag, (out, rel, "clang++", std, cflags + cxxflags, False)))
+                    jobs.append((tag, (out, rel, "clang++", std, cflags + cxxflags + ccflags, False)))
                     if not ctx.quick or R.random() < 0.5:
-                        jobs.append((tag, (out, rel, "g++", std, cflags + cxxflags + ["-Wno-stringop-overflow"], False)))
+                        jobs.append((tag, (out, rel, "g++", std, cflags + cxxflags + ccflags + ["-Wno-stringop-overflow"], False)))
         else:
             rels = sorted(r for r in files if r.endswith(".py"))
             env = common.child_env()
